@@ -46,7 +46,9 @@ PROJECTION = {"div": "0", "rem": "1"}
 NEUTRAL_SELF = ("const_choice::ConstChoice", "subtle::Choice", "const_choice::ConstCtOption", "subtle::CtOption",
                 "core::option::Option", "core::result::Result", "bool")
 # value-preserving helpers for the operand-order chase
-ORDER_VP_SEG = {"expect", "unwrap", "unwrap_or", "into", "from", "clone", "to_nz", "to_odd", "as_ref", "deref",
+ORDER_VP_SEG = {"expect", "unwrap", "unwrap_or", "into", "from", "clone", "to_nz", "to_odd", "as_ref", "deref", "map", "and_then",
+                "is_some", "is_none", "components_ref", "as_mut", "deref_mut", "borrow_mut", "as_limbs_mut", "as_words", "params",
+                "bits_precision", "nlimbs", "zero", "one", "zero_with_precision", "default", "try_into", "try_from",
                 "borrow", "new", "get", "as_nz_ref", "as_uint", "as_int", "as_limbs", "to_limbs", "into_option",
                 "new_unwrap", "as_montgomery", "resize", "widen", "to_uint"}
 
@@ -121,6 +123,14 @@ def run(facts, report, config):
                 fam_calls.append((i, t, fam, name))
         report.count("family_named_branch_free_bodies")
         if len(fam_calls) != 1:
+            continue
+        # a body that combines its one family callee with other computing calls (a helper, a select, a mask
+        # operation) is an implementation, not a forwarder: only neutral helpers may accompany the family callee
+        others = [t2 for (i2, t2) in calls if t2 is not fam_calls[0][1] and not _neutral_callee(t2)
+                  and (mir.last_seg(mir.callee_name(t2)) or "") not in ORDER_VP_SEG
+                  and (mir.last_seg(mir.callee_decl(t2)) or "") not in ORDER_VP_SEG]
+        if others:
+            report.count("implementations_with_one_family_callee_not_judged")
             continue
         bi, t, cfam, cname = fam_calls[0]
         report.count("forwarders")
